@@ -97,6 +97,12 @@ def h3_stream(role, stream_class, maxlen, pieces, prefix):
         elif prefix == "request":
             evs.append(StreamDataReceived(data=b"\x01\x02\x00\x00", end_stream=False, stream_id=0))
             uni = peer_uni[0]
+        elif prefix == "sent_fin":
+            # the local side has already finished sending on the stream the bytes arrive on
+            conn.send_headers(0, list(GOOD_REQ if is_client else GOOD_RESP), end_stream=True) if is_client else None
+            if not is_client:
+                evs.append(StreamDataReceived(data=b"\x01\x02\x00\x00", end_stream=False, stream_id=0))
+            uni = peer_uni[0]
         else:
             uni = peer_uni[0]
         if stream_class == "request":
@@ -114,6 +120,11 @@ def h3_stream(role, stream_class, maxlen, pieces, prefix):
             sx.assume(cut <= n)
             evs.append(StreamDataReceived(data=data[:cut], end_stream=False, stream_id=sid))
             evs.append(StreamDataReceived(data=data[cut:], end_stream=sx.Bool("fin"), stream_id=sid))
+        if not is_client and prefix == "sent_fin":
+            pass
+        # finally the peer's QPACK encoder stream delivers something: blocked streams may resume
+        enc_sid = peer_uni[2]
+        evs.append(StreamDataReceived(data=b"\x02\x00", end_stream=False, stream_id=enc_sid))
         feed(conn, quic, evs)
 
     return run
@@ -157,7 +168,7 @@ def obligations(tier):
     n1 = 9 if T else 6
     n2 = 7 if T else 5
     for role in ("client", "server"):
-        for cls, prefix, pieces, n in [("request", "none", 1, n1), ("request", "none", 2, n2), ("uni", "none", 1, n1), ("uni", "none", 2, n2), ("uni", "settings", 1, n1), ("control_more", "settings", 1, n1), ("uni", "request", 1, n1)]:
+        for cls, prefix, pieces, n in [("request", "none", 1, n1), ("request", "none", 2, n2), ("uni", "none", 1, n1), ("uni", "none", 2, n2), ("uni", "settings", 1, n1), ("control_more", "settings", 1, n1), ("uni", "request", 1, n1), ("request", "sent_fin", 1, n2)]:
             obs.append(Ob("C16.h3.%s.%s.%s.p%d" % (role, cls, prefix, pieces), h3_stream(role, cls, n, pieces, prefix), shims, enc, bounds="every byte string of length <= %d delivered in %d piece(s) with or without FIN on a %s stream after prefix '%s'; every QPACK outcome" % (n, pieces, cls, prefix), stubs=["pylsqpack -> ideal nondeterministic QPACK", "QuicConnection -> recorder"], env=hm.patched_qpack, budget_s=2400 if T else 280, max_decisions=1200))
         obs.append(Ob("C16.h3.%s.datagram" % role, h3_datagram(role, 10), shims, enc, bounds="every datagram payload of length <= 10", env=hm.patched_qpack, budget_s=200))
         obs.append(Ob("C16.h0.%s" % role, h0_stream(role, 6 if T else 5), shims, ["aioquic.h0.connection.H0Connection.handle_event"], bounds="every byte string of length <= %d in two pieces, with or without FIN" % (6 if T else 5), budget_s=900 if T else 280, max_decisions=900))
